@@ -176,8 +176,82 @@ class SchedPool(object):
                 yield res[k - 1]
         return _Iter(gen())
 
+    # ---- the rest of the multiprocessing.Pool interface (a tool is free to use any of it)
+    def starmap(self, fun, iterable, chunksize=None):
+        return self.map(_Star(fun), [tuple(t) for t in iterable])
+
+    def apply(self, fun, args=(), kwds=None):
+        return self.apply_async(fun, args, kwds).get()
+
+    def apply_async(self, fun, args=(), kwds=None, callback=None, error_callback=None):
+        """One task; like the real pool the exception of the task is kept in the result object and only raised by get():
+        wait() and ready() never raise."""
+        c, order, res, exc = self._run("apply", _Apply(fun, kwds or {}), [tuple(args)])
+        return _Async(self, c, res, exc, single=True, callback=callback, error_callback=error_callback)
+
+    def map_async(self, fun, iterable, chunksize=None, callback=None, error_callback=None):
+        c, order, res, exc = self._run("map", fun, iterable)
+        return _Async(self, c, res, exc, single=False, callback=callback, error_callback=error_callback)
+
+    def starmap_async(self, fun, iterable, chunksize=None, callback=None, error_callback=None):
+        return self.map_async(_Star(fun), [tuple(t) for t in iterable], chunksize, callback, error_callback)
+
     # pathos spelling
     uimap = imap_unordered
+    amap = map_async
+    apipe = apply_async
+    pipe = apply
+
+
+class _Star(object):
+    def __init__(self, fun):
+        self.fun = fun
+        self.__name__ = getattr(fun, "__name__", "fun")
+
+    def __call__(self, args):
+        return self.fun(*args)
+
+
+class _Apply(object):
+    def __init__(self, fun, kwds):
+        self.fun, self.kwds = fun, kwds
+        self.__name__ = getattr(fun, "__name__", "fun")
+
+    def __call__(self, args):
+        return self.fun(*args, **self.kwds)
+
+
+class _Async(object):
+    """multiprocessing.pool.AsyncResult of the in-process pool (the work is already done when it is handed out)."""
+
+    def __init__(self, pool, call, res, exc, single, callback=None, error_callback=None):
+        self.pool, self.call, self.res, self.exc, self.single = pool, call, res, exc, single
+        self.delivered = False
+        bad = [e for e in exc if e is not None]
+        if bad and error_callback:
+            error_callback(bad[0])
+        elif not bad and callback:
+            callback(res[0] if single else res)
+
+    def ready(self):
+        return True
+
+    def successful(self):
+        return all(e is None for e in self.exc)
+
+    def wait(self, timeout=None):
+        return None
+
+    def get(self, timeout=None):
+        for k, e in enumerate(self.exc, 1):
+            if e is not None:
+                self.pool.sched.ev(ev="Raise", call=self.call, k=k)
+                raise e
+        if not self.delivered:
+            for k in range(1, len(self.res) + 1):
+                self.pool.sched.ev(ev="Deliver", call=self.call, k=k)
+            self.delivered = True
+        return self.res[0] if self.single else self.res
 
 
 class _Iter(object):
@@ -260,6 +334,12 @@ class GatedPool(object):
 
     def clear(self):
         self.terminate()
+
+    def __getattr__(self, name):
+        # the rest of the Pool interface (apply_async, starmap, map_async ...) goes to the real pool as it is
+        if name.startswith("__"):
+            raise AttributeError(name)
+        return getattr(self.pool, name)
 
     def _run(self, kind, fun, iterable):
         tasks = list(iterable)
